@@ -280,6 +280,24 @@ def select_grammars(tier, seed, wd, run):
         G = pipeline.bracket_grammar(rng)
         if len(G["ts"]) <= 3:
             pool.append(("bracket", G))
+    # the same small grammars under HOSTILE names: terminals and nonterminals called like the generator's own helpers (the
+    # end-of-input kind `Eof` and its fallbacks, State, Node, Action, ...). C05 asks whether such modules compile; here they
+    # are RUN: a helper that refers to its preferred name instead of the allocated one compiles and misbehaves
+    T_HOSTILE = ["$Eof", "$Eof2", "$State", "$Node", "$Error", "$Terminal", "$Quasiterminal", "$Accept", "$Shift", "$Reduce", "$Err", "$None", "$Some2"]
+    N_HOSTILE = ["Node2", "State2", "Action", "RuleKind", "NonterminalKind", "QuasiterminalKind", "S", "Item", "Eof3", "Token", "Self_", "Ok2"]
+    base = [G for o, G in pool if o in ("classics", "U2") and len(G["ts"]) <= 3 and len(G["nts"]) <= 4]
+    for _ in range(24 if tier == "quick" else 200):
+        G = rng.choice(base)
+        tmap = dict(zip(G["ts"], rng.sample(T_HOSTILE, len(G["ts"]))))
+        nmap = dict(zip(G["nts"], rng.sample(N_HOSTILE, len(G["nts"]))))
+        if G["ts"] and rng.random() < 0.5:
+            tmap[G["ts"][0]] = "$Eof"
+        m = dict(tmap, **nmap)
+        if len(set(v.lstrip("$") for v in m.values())) != len(m):
+            continue
+        H = {"nts": [m[x] for x in G["nts"]], "ts": [m[x] for x in G["ts"]], "start": m[G["start"]],
+             "rules": [{"lhs": m[r["lhs"]], "rhs": [m[y] for y in r["rhs"]]} for r in G["rules"]]}
+        pool.append(("hostile", H))
     cases = []
     for origin, G in pool:
         pres = grammar.present(G, rng, payload=None)
@@ -320,8 +338,8 @@ def select_grammars(tier, seed, wd, run):
         log("  (pipeline pre-screen skipped: %s)" % str(e)[:200])
     run.notes["suspicious_grammars_from_pipeline_judgement"] = len(suspicious)
     # keep all classics, then fill up
-    keep = suspicious + [c for c in ok if c["origin"] == "classics"]
-    rest = [c for c in ok if c["origin"] != "classics"]
+    keep = suspicious + [c for c in ok if c["origin"] in ("classics", "hostile")]
+    rest = [c for c in ok if c["origin"] not in ("classics", "hostile")]
     rng.shuffle(rest)
     return keep + rest[:max(0, cap - len(keep))]
 
@@ -460,7 +478,8 @@ def check(prop, tier, seed):
         run.traces += 1
         if got != exp:
             owner = classify(exp, got)
-            if owner == prop:
+            # a panic where an error report is due is also a wrong error report (C03), not only a failure to terminate (C01)
+            if owner == prop or (prop == "C03" and got == "PANIC" and exp.startswith("ERR")):
                 run.violation(vcase(c, w, ids, exp, got, "%s: emitted parser disagrees with Driver.tla's prediction" % prop))
         # non-triviality bookkeeping
         if prop == "C01" and pr["t"] == "acc" and len(w) >= 2:
